@@ -67,14 +67,18 @@ Definition f_sync (f : file) : file :=
   let g := f_flush f in mkFile (os_view g) [] (bufoff g) [].
 
 (* a crash image: the durable content after the first k pending operations and the first t bytes of
-   the next write (torn write); any truncation among them may be missing (its effect on the inode
-   did not reach the disk) *)
+   the next write (torn write).  A truncation among them (a rewind below the flushed size: Truncate
+   in singleapp, chunk files removed + directory fsynced and then Truncate in multiapp, not fsynced
+   by SetOffset itself) may have reached the disk completely, partly (the chunk files are gone, the
+   bytes behind the new offset in its chunk are still there) or not at all: `PT n` may take effect at
+   any m >= n.  In every reachable state of the protocol a truncation is the FIRST pending operation
+   of its file (rewinds below the flushed size only follow an open). *)
 Definition prefix_torn (ws : list pw) (k : nat) (t : N) : list pw :=
   firstn k ws ++ match nth_error ws k with Some (PW o d) => [PW o (take t d)] | _ => [] end.
 Inductive sub_trunc : list pw -> list pw -> Prop :=
 | st_nil : sub_trunc [] []
-| st_keep : forall w a b, sub_trunc a b -> sub_trunc (w :: a) (w :: b)
-| st_skip : forall n a b, sub_trunc a b -> sub_trunc (PT n :: a) b.
+| st_w : forall o d a b, sub_trunc a b -> sub_trunc (PW o d :: a) (PW o d :: b)
+| st_t : forall n m a b, n <= m -> sub_trunc a b -> sub_trunc (PT n :: a) (PT m :: b).
 Definition crash_image (f : file) (img : bytes) : Prop :=
   exists k t ws, sub_trunc (prefix_torn (pending f) k t) ws /\ img = apply_writes (durable f) ws.
 
